@@ -162,6 +162,7 @@ class Commands:
             return cmd_type.parse(buf, params)
         except NotParseable as exc:
             return InvalidCommand(params, exc, command, cmd_type), buf[0:0]
-        except RecursionError:
-            # nested deeper than the parser can follow
+        except (RecursionError, ValueError):
+            # nested deeper than the parser can follow, or a number with more
+            # digits than can be converted
             return InvalidCommand(params, None, command, cmd_type), buf[0:0]
